@@ -112,7 +112,12 @@ def refute_avg(c, s, a, phase, d):
             continue
         averaged = abs(ph) > abs(scale)
         want = (0.0, 0.0, 1.0) if averaged else (math.cos(ph), math.sin(ph), 0.0)
-        got = (eval_at(c, m), eval_at(s, m), eval_at(a, m))
+        mm = dict(m)
+        from guarded import all_vars
+        for nm_ in all_vars(a) | all_vars(c) | all_vars(s):
+            if nm_.startswith('AVRPREV'):
+                mm[('v', nm_)] = Poly.const(1)
+        got = (eval_at(c, mm), eval_at(s, mm), eval_at(a, mm))
         if any(g is None for g in got):
             continue
         if any(abs(g - w) > 1e-9 for g, w in zip(got, want)):
@@ -128,7 +133,7 @@ def check_avg(db, rep):
         npair = d * (d - 1) // 2
         t, scale = Poly.var('t'), Poly.var('scale')
         plain = plain_args(db, d, t)
-        avr = make_vector('avr', npair, lambda k: 0)
+        avr = make_vector('avr', npair, lambda k: Poly.var('AVRPREV%d' % k))  # what the caller's flag vector held before the call
         where = 'include/SQuIDS/SU_inc/PreSinCosEvolSU%dAvg.txt' % d
         try:
             f, buf, hooks, it = run_filter(db, 'PrepareEvolve', 4, d, [t, scale, avr])
@@ -148,6 +153,7 @@ def check_avg(db, rep):
             c, s, a = buf.cell(k).value, buf.cell(npair + k).value, avreg.cell(k).value
             ok = True
             why = ''
+            definite = False
             for what, v, hi, lo in (('CX', c, Poly(), apply_func('cos', want_arg)), ('SX', s, Poly(), apply_func('sin', want_arg)), ('avr', a, 1, 0)):
                 if not isinstance(v, ITE):
                     ok, why = False, '%s[%d] is not a two-armed guarded value: %r' % (what, k, v)
@@ -169,6 +175,7 @@ def check_avg(db, rep):
                         good = (not isinstance(arm, (Poly, ITE))) and int(arm) == want
                     if not good:
                         ok, why = False, '%s[%d] arm %r, expected %s' % (what, k, arm, want)
+                        definite = True  # the guard is the documented one; the value stored under it is not
                         break
                 if not ok:
                     break
@@ -182,7 +189,10 @@ def check_avg(db, rep):
                 # abstract result at boundary points of the specification (zero / equal / larger phase, zero /
                 # negative / huge scale); a point where it differs from the specification is a counterexample
                 cex = refute_avg(c, s, a, want_arg, d)
-                if cex:
+                if definite:
+                    rep.fail('A.avg.thresh', site, where, '|phase_k| > |scale| ? (0,0,true) : (sin,cos,false) with phase_k = %s' % want_arg,
+                             why + ('; counterexample %s' % cex if cex else ''), f['name'])
+                elif cex:
                     rep.fail('A.avg.thresh', site, where, '|phase_k| > |scale| ? (0,0,true) : (sin,cos,false) with phase_k = %s' % want_arg,
                              '%s; counterexample %s' % (why, cex), f['name'])
                 else:
